@@ -22,6 +22,9 @@ from simgriffe.seams import World, purge_modules
 PK, EXT, PRIV, EXT2 = "c15pk", "c15ext", "_c15pk", "c15ext2"
 PYC_TOP = "c15pyc"  # a top-level module that exists only as (real, importable) sourceless bytecode
 PTH_HOOK = "c15hook"  # a module named by an `import` line of a .pth file in the search path
+# ... or is named like a source-less module of the standard library that this process never imports (a project that
+# vendors its own build of an accelerator): the name is in sys.stdlib_module_names, the code is the project's
+PYC_TOP_NAMES = [PYC_TOP, PYC_TOP, "_sqlite3", "_tkinter", "audioop", "_dbm"]
 WORLD_TOPS = {PK, EXT, PRIV, EXT2, PYC_TOP, PTH_HOOK, "c15missingdep"}
 FAULTS = ["exception", "importerror", "systemexit", "sysexit", "kbi", "missingdep", "recursion", "baseexc"]
 COMPILED_SUFFIXES = (".so", ".pyd", ".pyc")
@@ -98,6 +101,7 @@ def generate(rng, opts):
     cfg["pkgutil_init"] = rng.random() < 0.2
     # the import system can import it, the static finder cannot see it
     cfg["pyc_top"] = rng.random() < 0.2
+    pyc_name = rng.choice(PYC_TOP_NAMES)
     # site-packages style: a .pth file whose `import x` line CPython's site module would execute at start-up
     cfg["pth_import"] = rng.random() < 0.2
     std = None
@@ -115,6 +119,8 @@ def generate(rng, opts):
     for n in (EXT, f"{EXT}.x", PRIV):
         if rng.random() < cfg["p_ext"]:
             modules[n]["imports"].append(rng.choice([f"star:{EXT2}", f"from:{EXT2}"]))
+    if cfg["pyc_top"] and rng.random() < 0.6:
+        modules[rng.choice(names)]["imports"].append(f"from:{pyc_name}:fast")
     n_faults = rng.choice([0, 0, 1, 1, 2])
     for victim in rng.sample(list(modules), min(n_faults, len(modules))):
         modules[victim]["fault"] = rng.choice(FAULTS)
@@ -134,7 +140,7 @@ def generate(rng, opts):
         op = {
             "api": rng.choice(["load", "load", "loader", "dump", "main", "check", "check_main"]),
             "base_ref": rng.choice([None, "v2"]),
-            "target": rng.choice([PK, PK, PK, "path", "c15nothere", EXT, f"{PK}.a"] + ([PYC_TOP, f"{PYC_TOP}.fast", f"{PYC_TOP}.fast"] if cfg["pyc_top"] else [])),
+            "target": rng.choice([PK, PK, PK, "path", "c15nothere", EXT, f"{PK}.a"] + ([pyc_name, f"{pyc_name}.fast", f"{pyc_name}.fast"] if cfg["pyc_top"] else [])),
             "allow_inspection": inspect_mode != "static",
             "force_inspection": inspect_mode == "force",
             "resolve_aliases": rng.random() < 0.6,
@@ -148,7 +154,7 @@ def generate(rng, opts):
         }
         ops.append(op)
     # a long-lived process does not clean sys.modules between two loads
-    return {"world": {"modules": modules, "compiled": compiled, "stubs": stubs, "pkgutil_init": cfg["pkgutil_init"], "pyc_top": cfg["pyc_top"], "pth_import": cfg["pth_import"]}, "ops": ops, "cfg": cfg, "keep_modules": rng.random() < 0.4,
+    return {"world": {"modules": modules, "compiled": compiled, "stubs": stubs, "pkgutil_init": cfg["pkgutil_init"], "pyc_top": cfg["pyc_top"], "pyc_top_name": pyc_name, "pth_import": cfg["pth_import"]}, "ops": ops, "cfg": cfg, "keep_modules": rng.random() < 0.4,
             # the user (or the tool embedding Griffe) already has the package directory on sys.path
             "sp_on_sys_path": rng.random() < 0.3}
 
@@ -190,6 +196,9 @@ def render_world(world):
         for imp in m["imports"]:
             if imp.startswith("star:"):
                 lines.append(f"from {imp[5:]} import *")
+            elif imp.startswith("from:") and imp.count(":") == 2:
+                _, src, what = imp.split(":")
+                lines.append(f"from {src} import {what} as vendored_{what}")
             elif imp.startswith("from:"):
                 lines.append(f"from {imp[5:]} import f as ext_f")
             else:
@@ -209,7 +218,8 @@ def render_world(world):
         files[f"{PTH_HOOK}.py"] = "\n".join(["import os", f"open(os.path.join('<ROOT>', 'sp0', 'sent', {PTH_HOOK!r}), 'w').close()", f"import {PK}", "MAPPING = {}", ""])
     if world.get("pyc_top"):
         # compiled to sourceless bytecode when the world is set up (the path of the sentinel is only known then)
-        files[f"{PYC_TOP}.py"] = "\n".join(["import os", f"open(os.path.join('<ROOT>', 'sp0', 'sent', {PYC_TOP!r}), 'w').close()", "", "def fast():", "    return 1", ""])
+        pyc_name = world.get("pyc_top_name", PYC_TOP)
+        files[f"{pyc_name}.py"] = "\n".join(["import os", f"open(os.path.join('<ROOT>', 'sp0', 'sent', {pyc_name!r}), 'w').close()", "", "def fast():", "    return 1", ""])
     import importlib.machinery as mach
 
     for c in world["compiled"]:
@@ -424,8 +434,12 @@ def execute(plan, ctx):
         if world.get("pyc_top"):
             import py_compile
 
-            src = os.path.join(sp, f"{PYC_TOP}.py")
-            py_compile.compile(src, cfile=os.path.join(sp, f"{PYC_TOP}.pyc"), doraise=True)
+            pyc_name = world.get("pyc_top_name", PYC_TOP)
+            if pyc_name in sys.modules and pyc_name != PYC_TOP:
+                raise core.HarnessError(f"{pyc_name} is already imported in this process: not usable as a vendored name")
+            WORLD_TOPS.add(pyc_name)
+            src = os.path.join(sp, f"{pyc_name}.py")
+            py_compile.compile(src, cfile=os.path.join(sp, f"{pyc_name}.pyc"), doraise=True)
             os.remove(src)
         _audit["root"] = w.root
         import tempfile
@@ -523,6 +537,9 @@ def execute(plan, ctx):
             orig_path_obj[:] = [p_ for p_ in orig_path if not (plan.get("sp_on_sys_path") and p_ == sp)]
             os.chdir(orig_cwd)
             purge_modules(WORLD_TOPS)
+            for extra in PYC_TOP_NAMES:
+                if extra != PYC_TOP:
+                    WORLD_TOPS.discard(extra)
             for attr in [a for a in vars(builtins) if a.startswith("_c15_")]:
                 delattr(builtins, attr)
             for key in list(sys.path_importer_cache):
@@ -589,7 +606,7 @@ class _Prop:
         "forced; resolve_aliases x external x implicit; by name, by path, missing package). Static ops are checked "
         "with audit events, import seams, sentinels, sys.modules and the tree; every op is checked for sys.path "
         "identity+contents and cwd. Non-trivial = every run (each contains at least one judged op); distinct = "
-        "distinct (api/mode/outcome trace, world fault layout). Also drawn: sub-module names that collide with imported stdlib modules, chains of external packages, compiled modules in any package, `check` / `griffe check` operations over a Git repository built from the package (with and without base_ref), histories that keep sys.modules between operations. Round j/k: latin-1 encoded sources with a coding cookie; loaders built with the opposite inspection settings and re-configured through their public attributes before the load."
+        "distinct (api/mode/outcome trace, world fault layout). Also drawn: sub-module names that collide with imported stdlib modules, chains of external packages, compiled modules in any package, `check` / `griffe check` operations over a Git repository built from the package (with and without base_ref), histories that keep sys.modules between operations. Round r: a sourceless top-level module named like a standard-library accelerator this process never imports (_sqlite3, _tkinter...), imported by package modules. Round j/k: latin-1 encoded sources with a coding cookie; loaders built with the opposite inspection settings and re-configured through their public attributes before the load."
     )
     COMPONENTS = {
         "real": ["_griffe.loader", "_griffe.importer (sys_path, dynamic_import)", "_griffe.agents.inspector", "_griffe.finder", "_griffe.cli (dump, main)", "CPython import system executing the generated hostile modules"],
